@@ -16,6 +16,15 @@ CLAIMS = {
         "facts proved by CBMC code contracts (back end A, goto-instrument --dfcc --enforce-contract).",
    note=NOTE_COMMON + "Undecided remainder (not claimed): IEEE rounding inside each branch, f_PS/f_S/F1..F3 accuracy vs definition beyond the listed obligations, complex dilog.",
    technique="code contracts on extracted real functions: WP/SMT (z3 NRA) + CBMC DFCC contracts", design='5 C01'),
+ 'C04': dict(
+   text="Contracts on the real generated MSSM mass-matrix code, for ALL real Lagrangian parameters: every entry of the nine sfermion matrices, the sneutrino, gauge-boson, "
+        "fermion, gluino, neutralino and chargino mass matrices equals an independently written Lagrangian expression (one generic spec per sector with the generation "
+        "index, hence generation-exchange symmetry); after the tree-level EWSB elimination both EWSB equations vanish and the Higgs-sector trace/determinant sum rules "
+        "(m_h^2+m_H^2 = m_A^2+m_Z^2, m_H+^2 = m_A^2+m_W^2, Goldstones at MZ^2, MW^2) hold; each monitored sector flags a tachyon on exactly the paths with a negative "
+        "eigenvalue and stores sqrt|w|; calculate_DRbar_masses restores mHd2, mHu2 (RAII frame) and writes no other parameter; the Goldstone reordering permutes masses and ROWS of ZA/ZP.",
+   note=NOTE_COMMON + "A-LINALG (C12) assumed for fs_diagonalize_hermitian/fs_svd/fs_diagonalize_symmetric: reconstruction Z^dagger diag(m^2) Z, unitarity and ordering of the reported factors "
+        "are exactly that assumption applied to the proved matrices; IEEE rounding not covered.",
+   technique="symbolic execution of the extracted generated code + z3 NRA against an independent Lagrangian spec; exception/flag effects as ghost state", design='5 C04'),
  'C08': dict(
    text="Contracts on the real THDM construction code for ALL admissible mass-basis inputs: the lambda_1..5 inversion composed with the tree-level "
         "EWSB and the three Higgs mass matrices has exactly the input spectrum (R(alpha)^T M2_hh R(alpha) = diag(mh^2,mH^2), Goldstone eigenvectors and "
